@@ -154,6 +154,11 @@ structure Workload where
   rootNs : Str
   ns : Str
   labels : List (Str × Str)
+  /-- the proxy is a waypoint (`Proxy.IsWaypointProxy`, `WorkloadPolicyMatcher.IsWaypoint`) -/
+  waypoint : Bool := false
+  /-- `WithService` (`NewBuilderForService`): the service the chain is built for -
+      (name, namespace, registry is Kubernetes (else External)) -/
+  service : Option (Str × Str × Bool) := none
 deriving Repr, DecidableEq, Inhabited
 
 /-! ## Attribute vocabulary (model.go constants, `New` switch) -/
@@ -893,21 +898,37 @@ def lookupLabel (k : Str) : List (Str × Str) → Option Str
   | [] => none
   | (k', v) :: rest => if k' = k then some v else lookupLabel k rest
 
-/-- `WorkloadPolicyMatcher.ShouldAttachPolicy` for a sidecar or gateway proxy (not a waypoint; selector
-    based gateway policy enabled, the default). -/
+/-- `config.CanonicalGroup`: the empty (core) group is written `core`. -/
+def canonGroup (g : Str) : Str := if g.isEmpty then "core".toList else g
+
+/-- `matchesGroupKind`. A targetRef is (group, kind, name, namespace). -/
+def refIs (ref : Str × Str × Str × Str) (group kind : Str) : Bool :=
+  canonGroup ref.1 == canonGroup group && ref.2.1 == kind
+
+def waypointClassName : Str := "istio-waypoint".toList
+def istioNetworkingGroup : Str := "networking.istio.io".toList
+
+/-- `WorkloadPolicyMatcher.ShouldAttachPolicy` (selector based gateway policy enabled, the default). -/
 def shouldAttach (w : Workload) (p : Policy) : Bool :=
   match lookupLabel gatewayNameLabel w.labels with
   | none => p.targetRefs.isEmpty && p.selector.all (w.labels.contains ·)
   | some gw =>
-    if p.targetRefs.isEmpty then p.selector.all (w.labels.contains ·)
+    if p.targetRefs.isEmpty then !w.waypoint && p.selector.all (w.labels.contains ·)
     else p.targetRefs.any fun ref =>
-      w.ns == p.ns && (ref.2.2.2.isEmpty || ref.2.2.2 == w.ns) &&
-      ref.1 == gatewayGroup && ref.2.1 == "Gateway".toList && ref.2.2.1 == gw
+      (w.waypoint && refIs ref [] "Service".toList &&
+        w.service.any fun s => ref.2.2.1 == s.1 && p.ns == s.2.1 && s.2.2) ||
+      (w.waypoint && refIs ref istioNetworkingGroup "ServiceEntry".toList &&
+        w.service.any fun s => ref.2.2.1 == s.1 && p.ns == s.2.1 && !s.2.2) ||
+      (p.ns == w.rootNs && w.waypoint && refIs ref gatewayGroup "GatewayClass".toList &&
+        ref.2.2.1 == waypointClassName) ||
+      (w.ns == p.ns && (ref.2.2.2.isEmpty || ref.2.2.2 == w.ns) &&
+        refIs ref gatewayGroup "Gateway".toList && ref.2.2.1 == gw)
 
-/-- `GetAuthorizationPolicies` + `ListAuthorizationPolicies`: policies of the root namespace and of the
-    workload's namespace that attach to the workload. -/
+/-- `GetAuthorizationPolicies` + `ListAuthorizationPolicies`: policies of the root namespace, of the
+    workload's namespace and of the namespace of the service the chain is built for, that attach. -/
 def selectPolicies (w : Workload) (ps : List Policy) : List Policy :=
-  ps.filter fun p => (p.ns == w.rootNs || p.ns == w.ns) && shouldAttach w p
+  ps.filter fun p =>
+    (p.ns == w.rootNs || p.ns == w.ns || w.service.any fun s => p.ns == s.2.1) && shouldAttach w p
 
 structure BuildOpts where
   bundle : List Str            -- trustdomain.Bundle.TrustDomains (local trust domain first)
